@@ -6,13 +6,18 @@ Ops:  s <escaped chunk>  => ok
                             [ out=empty | lex2=<st> parse2=<st> fmt2=<st> idem=<0|1> ncomments=<n> comments=<c> T2 <tok>… A2 <dump>… [OUT1 … OUT2 …] ]
       <tok> = KIND|nl|cm|'text (real scanner, comments left out);  <dump> = canonical dump of the real parser's AST.
 Correspondence (MISMATCH): the model parser accepts exactly what the real parser accepts and builds the same AST
-(source and formatted text); the model formatter writes the same token texts as the real formatter.
+(source and formatted text); the model formatter writes the same token texts as the real formatter; every AST the
+model parser builds satisfies the decidable well-formedness predicate that the round-trip theorems assume.
+Sections: `kind` valid | mut | sweep (one comment form at one position), `class` main or a known defect class of the
+unchanged formatter (route-comment, empty-body-comment, inner-comment, comment-trailing-blank, star-slash,
+ml-comment, ctl-literal, empty-source), `sure=1` = generated without keyword-like identifiers (valid by construction).
 Monitor (MONITOR, the property on the implementation's own observations): no panic; a valid source is formatted;
 an invalid one is rejected with an error; the formatted text scans, parses, has the same description, and
 formatting it again changes nothing.
 -/
 import GoZero.Base.Trace
 import GoZero.C20.Spec
+import GoZero.C20.WfDec
 namespace GoZero.C20
 
 open GoZero
@@ -76,13 +81,60 @@ def coverApi (r : Report) (a : Api) : Report := Id.run do
     r := r.addCover "field-anonymous"
   return r
 
-def runFmt (r : Report) (sec : Nat) (line : Nat) (kind : String) (obs : List String) : Report := Id.run do
+/-- Known defect classes (each has an entry in known_findings.json): a monitor failure of one of the kinds the
+class is known to produce is reported with the prefix `[known-class <id>]`; every other failure is reported plainly. -/
+def classExpects (cls : String) (kind : String) : Bool :=
+  match cls with
+  | "route-comment" => kind == "idem"
+  | "empty-body-comment" => kind == "idem" || kind == "reparse"
+  | "inner-comment" => kind == "idem" || kind == "reparse"
+  | "comment-trailing-blank" => kind == "idem"
+  | "ml-comment" => kind == "idem"
+  | "ctl-literal" => kind == "idem" || kind == "desc"
+  | "star-slash" => kind == "rejected"
+  | _ => false
+
+def viol (r : Report) (sec line : Nat) (cls kind msg : String) : Report :=
+  if classExpects cls kind then (r.violation sec line s!"[known-class {cls}] {msg}").addCover ("known-class-" ++ cls)
+  else r.violation sec line msg
+
+def coverSlots (r : Report) (cfg : List String) : Report := Id.run do
   let mut r := r
-  if obs == ["empty"] then return r.addCover "empty-source"
+  let sl := kvStr cfg "slots" "-"
+  if sl == "-" || sl == "" then return r
+  for e in sl.splitOn "," do
+    match e.splitOn "/" with
+    | [slot, k] =>
+      r := r.addCover ("cm-at:" ++ slot)
+      r := r.addCover ("cm-kind:" ++ k)
+    | _ => pure ()
+  return r
+
+def runFmt (r : Report) (sec : Nat) (line : Nat) (cfg : List String) (obs : List String) : Report := Id.run do
+  let kind := kvStr cfg "kind" "valid"
+  let cls0 := kvStr cfg "class" "main"
+  let sure := kvStr cfg "sure" "0" == "1"
+  let mut r := r
+  match obs with
+  | "empty" :: rest =>
+    -- the empty source: format.Source is run in a child process (it may terminate the process)
+    r := r.addCover "empty-source"
+    -- only the dedicated section is judged (shrinking a failing program may pass through the empty source)
+    if cls0 != "empty-source" then return r.addCover "empty-source-not-judged"
+    let res := kvStr rest "result"
+    if res == "err" then return r.addCover "empty-source-error"
+    if res == "ok" then return r.addCover "empty-source-ok"
+    return r.violation sec line s!"[known-class empty-source] format.Source on an empty source terminates the process instead of returning an error: {joinSp rest}"
+  | _ => pure ()
   let lex := kvStr obs "lex"
   let prs := kvStr obs "parse"
   let fmt := kvStr obs "fmt"
   if lex == "" || prs == "" || fmt == "" then return r.mismatch sec line "well-formed observation" (joinSp (obs.take 6))
+  let oddLit := kvStr obs "oddlit" == "1"
+  let oddCm := kvStr obs "oddcm" == "1"
+  -- the defect class of this program: from the generator, or visible in the observation
+  let cls := if cls0 != "main" then cls0 else if oddLit then "ctl-literal" else if oddCm then "ml-comment" else "main"
+  r := r.addCover ("class-" ++ cls)
   -- the scanner and parser report errors rather than crashing
   if lex == "panic" || prs == "panic" || fmt == "panic" || prs == "nil" then
     r := r.violation sec line s!"crash instead of an error: lex={lex} parse={prs} fmt={fmt} (kind={kind})"
@@ -92,6 +144,7 @@ def runFmt (r : Report) (sec : Nat) (line : Nat) (kind : String) (obs : List Str
     r := r.addCover "scanner-error"
     if prs == "ok" || fmt == "ok" then
       r := r.violation sec line s!"scanner reports an error but parse={prs} fmt={fmt}"
+    if sure then r := viol r sec line cls "rejected" s!"a source that is valid by construction is rejected by the scanner: lex={lex}"
     return r
   match parseTokWords (sectionAfter obs "T1") with
   | none => return r.mismatch sec line "token words" "unparsable T1"
@@ -108,10 +161,16 @@ def runFmt (r : Report) (sec : Nat) (line : Nat) (kind : String) (obs : List Str
     else
       r := r.addCover "invalid-rejected"
       if fmt == "ok" then r := r.violation sec line "the parser reports errors but format.Source succeeds"
+    -- generated without keyword identifiers: valid by construction, so the token stream the scanner delivered is wrong
+    if sure then r := viol r sec line cls "rejected" s!"a source that is valid by construction is rejected (scanner tokens do not form a program): parse={prs}"
     return r
   | some m1 =>
   r := r.addCover ("valid-" ++ kind)
+  -- the hypothesis of the round-trip theorems (Props.lean: parse_print, format_correct) holds for this program
+  if wfApiB m1 then r := r.addCover "ast-well-formed"
+  else r := r.mismatch sec line "an AST in WF (hypothesis of parse_print / format_correct)" ("the model parser built: " ++ joinSp (dump m1))
   r := coverApi r m1
+  r := coverSlots r cfg
   if prs != "ok" then
     r := r.mismatch sec line "parse ok" s!"parse={prs}"
     r := r.violation sec line s!"valid source (the grammar model accepts it) is rejected: parse={prs} fmt={fmt}"
@@ -122,12 +181,8 @@ def runFmt (r : Report) (sec : Nat) (line : Nat) (kind : String) (obs : List Str
   if fmt != "ok" then
     return r.violation sec line s!"valid source but formatting fails: fmt={fmt}"
   let nm1 := norm m1
-  -- literals / comments with control characters (tab, line break) are outside the checked domain:
-  -- tabwriter and Writer.write rewrite them (recorded finding); counted, not judged
-  let oddLit := kvStr obs "oddlit" == "1"
-  let oddCm := kvStr obs "oddcm" == "1"
-  if oddLit then r := r.addCover "skip-control-char-in-literal"
-  if oddCm then r := r.addCover "skip-control-char-in-comment"
+  if oddLit then r := r.addCover "control-char-in-literal"
+  if oddCm then r := r.addCover "control-char-in-comment"
   if nm1.length < m1.length then r := r.addCover "dropped-empty-statement"
   if obs.contains "out=empty" then
     r := r.addCover "output-empty"
@@ -138,14 +193,16 @@ def runFmt (r : Report) (sec : Nat) (line : Nat) (kind : String) (obs : List Str
   let fmt2 := kvStr obs "fmt2"
   let idem := kvStr obs "idem"
   r := r.addCover ("comments-" ++ kvStr obs "comments")
-  if kvNat obs "ncomments" > 0 then r := r.addCover "with-comments"
-  -- a mutation can put a comment between any two tokens of a statement; the formatter's handling of such
-  -- comments is a recorded finding (it loses / misplaces them), so mutated programs with comments are only
-  -- checked for crash-freedom, accept/reject and successful formatting
-  if kind == "mut" && kvNat obs "ncomments" > 0 then
-    return r.addCover "skip-mutated-with-comments"
+  let ncm := kvNat obs "ncomments"
+  if ncm > 0 then r := r.addCover "with-comments"
+  -- a mutation can move a comment into one of the positions of the known classes route-comment /
+  -- empty-body-comment (the driver cannot see from the tokens where a head comment sits): for mutated
+  -- programs with comments the re-parse and the idempotence are not judged; the description still is
+  let lenient := kind == "mut" && ncm > 0
+  if lenient then r := r.addCover "mutated-with-comments"
   if lex2 != "ok" || prs2 != "ok" then
-    return r.violation sec line s!"formatted text is not a valid source: lex2={lex2} parse2={prs2}"
+    if lenient then return r.addCover "skip-mutated-with-comments-reparse"
+    return viol r sec line cls "reparse" s!"formatted text is not a valid source: lex2={lex2} parse2={prs2}"
   match parseTokWords (sectionAfter obs "T2") with
   | none => return r.mismatch sec line "token words" "unparsable T2"
   | some t2 =>
@@ -164,26 +221,24 @@ def runFmt (r : Report) (sec : Nat) (line : Nat) (kind : String) (obs : List Str
   let a2 := sectionAfter obs "A2"
   if dump m2 != a2 then r := r.mismatch sec line (joinSp (dump m2)) (joinSp a2)
   -- the property: same description, and idempotent
-  if oddLit then return r
   if !sameDesc m1 m2 then
-    r := r.violation sec line s!"description changed by formatting: before=[{joinSp (desc m1)}] after=[{joinSp (desc m2)}]"
+    r := viol r sec line cls "desc" s!"description changed by formatting: before=[{joinSp (desc m1)}] after=[{joinSp (desc m2)}]"
   else r := r.addCover "same-description"
-  if fmt2 != "ok" then r := r.violation sec line s!"formatting the formatted text fails: fmt2={fmt2}"
-  else if oddCm then pure ()
-  else if idem != "1" then r := r.violation sec line "formatting the result again changes it (not idempotent)"
+  if fmt2 != "ok" then r := viol r sec line cls "reparse" s!"formatting the formatted text fails: fmt2={fmt2}"
+  else if lenient then r := r.addCover "skip-mutated-with-comments-idempotence"
+  else if idem != "1" then r := viol r sec line cls "idem" "formatting the result again changes it (not idempotent)"
   else r := r.addCover "idempotent"
   if dump (norm m2) == dump m2 then r := r.addCover "output-normal"
   return r
 
 def runSection (r : Report) (s : Section) : Report := Id.run do
-  let kind := kvStr s.cfg "kind" "valid"
   let mut r := r
   for l in s.lines do
     r := { r with ops := r.ops + 1 }
     match l.op with
     | ["s", _] =>
       if l.obs != ["ok"] then r := r.mismatch s.idx l.idx "ok" (joinSp l.obs)
-    | ["fmt"] => r := runFmt r s.idx l.idx kind l.obs
+    | ["fmt"] => r := runFmt r s.idx l.idx s.cfg l.obs
     | _ => r := r.mismatch s.idx l.idx "bad-op" (joinSp l.op)
   return r
 
